@@ -1367,6 +1367,10 @@ pub fn find_close(words: &[u64], len: usize, p: usize) -> Option<usize> {
     // Scan subsequent words
     for (i, &word) in words[word_idx + 1..].iter().enumerate() {
         let actual_word_idx = word_idx + 1 + i;
+        // Words that start at or past `len` hold no valid bits (surplus storage).
+        if actual_word_idx * 64 >= len {
+            break;
+        }
         let word_bits = if actual_word_idx * 64 + 64 <= len {
             64
         } else {
@@ -1401,10 +1405,6 @@ pub fn find_close(words: &[u64], len: usize, p: usize) -> Option<usize> {
         }
 
         excess += word_excess;
-
-        if actual_word_idx * 64 >= len {
-            break;
-        }
     }
 
     None
